@@ -7,7 +7,7 @@ EXPLANATION = (
     "Proved (unbounded): EvalMainContext.is_authorized_path answers True exactly when some dotted prefix of the canonical path is in the "
     "accepted set, for every path depth and every size of the accepted set; accept_module adds exactly the module's name. "
     "Bounded stand-in (not proof): the classification of resolved objects and the influence of edits on both sides of the boundary "
-    "are checked on generated package trees (see 'bounded')."
+    "are checked on generated package trees (see 'bounded'): package chain of depth 6, accepted prefix at every depth, six import forms (incl. an accepted function re-exported by a non-accepted module), an edit of a function / variable at every level in a fresh process -- a caller's signature changes iff the edited module is accepted; a data function of a non-accepted module is refused with an error naming the module."
 )
 TRUSTED = [
     "A-ENGINE: pyvc VC generator + z3/cvc5",
@@ -31,4 +31,4 @@ def specs():
 def bounded(tier, seed, pr):
     from pyvc.boundedrun import run_bounded
 
-    return [run_bounded(pr, "b_accept.py", "accept_registry_and_prefix_match")]
+    return [run_bounded(pr, "b_accept.py", "accept_registry_and_prefix_match"), run_bounded(pr, "b_boundary.py", "edits_on_both_sides_of_the_boundary")]
